@@ -85,14 +85,14 @@ CHECKS = {
  ),
  "C12": dict(
   category="fault_enumeration",
-  text="Sync is run between real repositories through a wrapper that records every call/return with a logical clock, injects source-read and target-append failures and yields between operations. For scenarios with up to 4 assets all subsets of failing reads x all subsets of failing appends are enumerated; larger random scenarios vary target prefixes, asset lists and worker counts. Decided per run: exact final state, idempotence, error reporting, isolation of failures, equality across worker counts, linearizability of the recorded target history against the map model (porcupine, partitioned by asset), and absence of data races (race build).",
+  text="Sync is run between real repositories through a wrapper that records every call/return with a logical clock, injects source-read and target-append failures and yields between operations. For scenarios with up to 4 assets all subsets of failing reads x all subsets of failing appends are enumerated; larger random scenarios vary target prefixes, asset lists and worker counts. Decided per run: exact final state, idempotence, error reporting, isolation of failures, equality across worker counts, linearizability of the recorded target history against the map model (porcupine, partitioned by asset), and absence of data races (race build). The repository's own command line tool (cmd/indicator-sync, built by the parent from the tree under test) is also executed end to end between file-system repositories and its effect compared with the same model.",
   design_ref="DESIGN.md §3 C12",
   note="Trusted: porcupine v1.3.0; Delay=0 (a non-zero delay is a sleep between assets); duplicate names in the asset list are outside the workload.",
   technique="fault injection at repository boundaries + final-state model + porcupine linearizability check of recorded histories + race detector",
  ),
  "C13": dict(
   category="exploration",
-  text="Backtest is run with a recording Report whose online trace checker decides the notification protocol; exactly-once delivery per (asset, strategy); content equal to a direct evaluation inside the look-back window; equality of result sets across 1/2/3/8/16 workers; the bundled DataReport and HTMLReport are checked against the same direct evaluation (HTML pages parsed: presence, %.2f outcomes, non-increasing order, best entry maximal); the multi-worker runs are repeated under the race detector; a 'concurrent map writes' crash is attributed by the parent.",
+  text="Backtest is run with a recording Report whose online trace checker decides the notification protocol; exactly-once delivery per (asset, strategy); content equal to a direct evaluation inside the look-back window; equality of result sets across 1/2/3/8/16 workers; the bundled DataReport and HTMLReport are checked against the same direct evaluation (HTML pages parsed: presence, %.2f outcomes, non-increasing order, best entry maximal); the multi-worker runs are repeated under the race detector; a 'concurrent map writes' crash is attributed by the parent. cmd/indicator-backtest is executed end to end over a file-system repository and its HTML pages are compared with a direct evaluation of the tool's strategy list.",
   design_ref="DESIGN.md §3 C13",
   note="Trusted: snapshot dates are generated relative to the current day and kept >= 2 days from the window edge, so time.Now() inside Backtest never decides a verdict.",
   technique="online protocol trace checker + exactly-once/content oracle + race detector over worker pools",
